@@ -96,7 +96,7 @@ BUDGET = {
     "quick": dict(cases=128, shards=4, timeout=600),
     "thorough": dict(cases=360, shards=16, timeout=1500),
 }
-MW_TIMEOUT = {"quick": 120, "thorough": 240}
+MW_TIMEOUT = {"quick": 90, "thorough": 240}
 MW_SLOTS = 6  # multi-worker cases in flight over all shards (each is up to ~12 interpreters importing torch)
 
 _SUBS = {
